@@ -72,16 +72,28 @@ def program(draw, tier):
         nb = draw(N.edit_notebook(pool[draw(st.integers(0, len(pool) - 1))], "P%d" % k, max_steps=3, min_steps=1))
         nb["metadata"]["grid"] = copy.deepcopy(draw(st.sampled_from(N.SHAPES)))
         pool.append(nb)
+    # families (base, L, R) in which both sides insert the same new cell at one position, the two copies differing in ONE category
+    families = []
+    for k in range(draw(st.sampled_from([0, 1, 2, 2]))):
+        fb = pool[draw(st.integers(0, len(pool) - 1))]
+        l, r = draw(insert_family(fb, "F%d" % k))
+        families.append([pool.index(fb) if fb in pool else 0, len(pool), len(pool) + 1])
+        pool += [l, r]
     n = len(pool)
     idx = st.integers(0, n - 1)
     maxlen = 14 if tier == "quick" else 25
+    cfg = draw(st.sampled_from([None, None, None] + CONFIG_IGNORES))
     steps = []
     for _ in range(draw(st.integers(4, maxlen))):
         kind = draw(st.sampled_from(["diff", "diff", "diff", "merge", "targets", "ignores", "reset", "cli", "repeat"]))
         if kind == "diff":
             steps.append(["diff", draw(idx), draw(idx)])
         elif kind == "merge":
-            steps.append(["merge", draw(idx), draw(idx), draw(idx), draw(S.strategy_args(renderers=["git"]))])
+            if families and draw(st.booleans()):
+                f = draw(st.sampled_from(families))
+                steps.append(["merge", f[0], f[1], f[2], draw(S.strategy_args(renderers=["git"]))])
+            else:
+                steps.append(["merge", draw(idx), draw(idx), draw(idx), draw(S.strategy_args(renderers=["git"]))])
         elif kind == "targets":
             steps.append(["targets", [draw(st.booleans()) for _ in range(6)]])
         elif kind == "ignores":
@@ -100,7 +112,42 @@ def program(draw, tier):
                 steps.append(copy.deepcopy(draw(st.sampled_from(qs))))
     if not any(s[0] in ("diff", "merge") for s in steps):
         steps.append(["diff", 0, n - 1])
-    return {"pool": pool, "steps": steps, "fresh_check": draw(st.sampled_from([True] + [False] * 39))}
+    return {"pool": pool, "steps": steps, "config_ignore": cfg, "fresh_check": draw(st.sampled_from([True] + [False] * 39))}
+
+
+CONFIG_IGNORES = [{"/metadata": ["grid"]}, {"/cells/*/metadata": ["collapsed", "scrolled", "tags", "trusted"]}, {"/cells/*/outputs": True},
+                  {"/cells/*/source": True, "/metadata": ["grid", "kernelspec"]}]
+
+
+@st.composite
+def insert_family(draw, base, tag):
+    """Both sides insert a copy of one new code cell at the same position; the copies differ in exactly one ignorable category."""
+    l, r = copy.deepcopy(base), copy.deepcopy(base)
+    minor = base["nbformat_minor"]
+    pos = draw(st.integers(0, len(base["cells"])))
+    used = N._ids(base)
+    c = {"cell_type": "code", "metadata": {}, "execution_count": 3, "source": "x = compute(%s)\nprint(x)\nplot(x)\n" % tag,
+         "outputs": [{"output_type": "stream", "name": "stdout", "text": "first line %s\nsecond line\n" % tag}]}
+    if minor >= 5:
+        c["id"] = N._fresh_id(used, tag)
+    c2 = copy.deepcopy(c)
+    what = draw(st.sampled_from(["outputs", "outputs", "metadata", "source", "details", "id"]))
+    if what == "outputs":
+        c2["outputs"][0]["text"] = "first line %s\nsecond line changed\n" % tag
+    elif what == "metadata":
+        c2["metadata"] = {"collapsed": True}
+    elif what == "source":
+        c2["source"] = c["source"].replace("print(x)", "print(x, x)")
+    elif what == "details":
+        c2["execution_count"] = 8
+    elif what == "id" and minor >= 5:
+        c2["id"] = N._fresh_id(used | {c["id"]}, tag + "r")
+    if draw(st.booleans()):
+        c, c2 = c2, c
+    l["cells"].insert(pos, c)
+    r["cells"].insert(pos, c2)
+    return l, r
+
 
 
 def strategy(tier):
@@ -151,12 +198,29 @@ def _exec_step(step, pool):
         return ["exc", type(e).__name__, innermost_frame(e), normalise_msg(str(e))]
 
 
-def _run_steps(steps, pool):
-    return [_exec_step(s, pool) for s in steps]
+def _run_steps(steps, pool, cfg=None):
+    """Runs the steps; with `cfg`, an nbdime_config.json holding {"NbDiff": {"Ignore": cfg}} is what the command line finds."""
+    import shutil
+    import tempfile
+    d = None
+    if cfg:
+        import nbdime.config as nc
+        d = tempfile.mkdtemp(prefix="vp_c12_")
+        with open(os.path.join(d, "nbdime_config.json"), "w") as f:
+            json.dump({"NbDiff": {"Ignore": cfg}}, f)
+        os.environ["JUPYTER_CONFIG_DIR"] = d
+        os.environ.pop("JUPYTER_CONFIG_PATH", None)
+        nc._config_cache.clear()
+    try:
+        return [_exec_step(s, pool) for s in steps]
+    finally:
+        if d:
+            shutil.rmtree(d, ignore_errors=True)
 
 
-def config_in_force(steps):
-    """Configuration steps that determine the ignore options in force after `steps` (model of the documented semantics)."""
+def config_in_force(steps, cfg=None):
+    """Configuration steps that determine the ignore options in force after `steps` (model of the documented semantics).
+    With a config file `Ignore` section, every command-line parse installs it (like an `ignores` step) before the flags are looked at."""
     out = []
     for s in steps:
         if s[0] == "reset":
@@ -166,6 +230,8 @@ def config_in_force(steps):
         elif s[0] == "cli":
             if s[1]:
                 out = [s]
+            elif cfg:
+                out.append(s)
         elif s[0] == "ignores":
             out.append(s)
     return out
@@ -174,12 +240,12 @@ def config_in_force(steps):
 def handle(job):
     """Runs in the pristine server: one fork for the whole program, one fresh fork per query."""
     from ..forksrv import run_in_fork
-    steps, pool = job["steps"], job["pool"]
-    long = run_in_fork(_run_steps, steps, pool)
+    steps, pool, cfg = job["steps"], job["pool"], job.get("config_ignore")
+    long = run_in_fork(_run_steps, steps, pool, cfg)
     refs = []
     for i, s in enumerate(steps):
         if s[0] in ("diff", "merge"):
-            refs.append(run_in_fork(_run_steps, config_in_force(steps[:i]) + [s], pool)[-1])
+            refs.append(run_in_fork(_run_steps, config_in_force(steps[:i], cfg) + [s], pool, cfg)[-1])
         else:
             refs.append(None)
     return {"long": long, "refs": refs}
@@ -190,19 +256,19 @@ import sys, json
 sys.argv[:] = ["nbdiff"]
 job = json.load(open(sys.argv[1])) if False else json.load(sys.stdin)
 from vp.props import c12
-res = c12._run_steps(job["steps"], job["pool"])
+res = c12._run_steps(job["steps"], job["pool"], job.get("config_ignore"))
 print("RESULT" + json.dumps(res[-1]))
 '''
 
 
-def fresh_interpreter(steps, pool):
+def fresh_interpreter(steps, pool, cfg=None):
     env = dict(os.environ)
     env["PYTHONPATH"] = os.pathsep.join([REPO, ROOT, os.path.join(ROOT, "stubs"), os.path.join(ROOT, ".deps")])
     d = os.path.join(ROOT, ".fresh_cwd")
     os.makedirs(d, exist_ok=True)
     env["JUPYTER_CONFIG_DIR"] = d
     env["JUPYTER_CONFIG_PATH"] = d
-    p = subprocess.run([sys.executable, "-c", FRESH_SNIPPET], input=json.dumps({"steps": steps, "pool": pool}), capture_output=True,
+    p = subprocess.run([sys.executable, "-c", FRESH_SNIPPET], input=json.dumps({"steps": steps, "pool": pool, "config_ignore": cfg}), capture_output=True,
                        text=True, env=env, cwd=d, timeout=120)
     for line in p.stdout.splitlines():
         if line.startswith("RESULT"):
@@ -213,8 +279,12 @@ def fresh_interpreter(steps, pool):
 def run_case(case):
     from ..forksrv import server
     out = Outcome()
-    steps, pool = case["steps"], case["pool"]
-    res = server().call({"handler": "vp.props.c12:handle", "steps": steps, "pool": pool})
+    steps, pool, cfg = case["steps"], case["pool"], case.get("config_ignore")
+    res = server().call({"handler": "vp.props.c12:handle", "steps": steps, "pool": pool, "config_ignore": cfg})
+    if cfg:
+        out.label("config_file_with_Ignore_section")
+        if any(s[0] == "cli" for s in steps):
+            out.count("programs_parsing_command_line_under_config_Ignore")
     queries = [i for i, s in enumerate(steps) if s[0] in ("diff", "merge")]
     confs = [i for i, s in enumerate(steps) if s[0] in ("targets", "ignores", "reset", "cli")]
     seen = []
@@ -235,20 +305,20 @@ def run_case(case):
         if lo != ref:
             if lo[0] == "exc" and ref[0] == "ok":
                 out.fail("history_independent", "fails_only_after_history", "%s in %s" % (lo[1], lo[2]),
-                         detail={"step": i, "op": steps[i][0], "long": lo, "config_in_force": config_in_force(steps[:i])})
+                         detail={"step": i, "op": steps[i][0], "long": lo, "config_in_force": config_in_force(steps[:i], cfg)})
             elif lo[0] == "ok" and ref[0] == "exc":
                 out.fail("history_independent", "fails_only_when_fresh", "%s in %s" % (ref[1], ref[2]),
                          detail={"step": i, "op": steps[i][0], "ref": ref})
             else:
                 out.fail("history_independent", "result_depends_on_history", steps[i][0],
-                         detail={"step": i, "op": steps[i][0], "config_in_force": config_in_force(steps[:i]),
+                         detail={"step": i, "op": steps[i][0], "config_in_force": config_in_force(steps[:i], cfg),
                                  "history": [s[0] for s in steps[:i]]})
             break
     if case.get("fresh_check") and queries:
         i = queries[-1]
         out.count("cross_checked_against_new_interpreter")
         try:
-            fresh = fresh_interpreter(config_in_force(steps[:i]) + [steps[i]], pool)
+            fresh = fresh_interpreter(config_in_force(steps[:i], cfg) + [steps[i]], pool, cfg)
         except Exception as e:
             raise RuntimeError("fresh interpreter cross-check failed to run: %s" % e)
         if fresh != res["refs"][i]:
